@@ -60,7 +60,7 @@ def run_scn(drv, text, mode, nofile=None, timeout=60):
             if nofile:
                 resource.setrlimit(resource.RLIMIT_NOFILE, (nofile, nofile))
         try:
-            p = subprocess.run([drv, "case.scn"], cwd=d, env=env, stdout=subprocess.PIPE, stderr=subprocess.PIPE, timeout=timeout, preexec_fn=limit)
+            p = vlib.run_group([drv, "case.scn"], cwd=d, env=env, stdout=subprocess.PIPE, stderr=subprocess.PIPE, timeout=timeout, preexec_fn=limit)
             rc, err = p.returncode, p.stderr.decode("latin-1")
         except subprocess.TimeoutExpired as ex:
             rc, err = None, (ex.stderr or b"").decode("latin-1")
